@@ -168,3 +168,21 @@ Proof.
   - apply cmp_eq_veq; auto.
   - apply veq_cmp_eq; auto.
 Qed.
+
+(* ------------------------------------------------------------------ *)
+(* comparison chains                                                   *)
+(* ------------------------------------------------------------------ *)
+Lemma not_in_negates_in_proof o l r :
+  cmp_link o ONotIn l r = bind (cmp_link o OIn l r) (fun b => Ok (negb b)).
+Proof. reflexivity. Qed.
+
+Lemma chain_two_proof o a op1 b op2 c :
+  chain o a [(op1, b); (op2, c)] = Ok true <-> cmp_link o op1 a b = Ok true /\ cmp_link o op2 b c = Ok true.
+Proof.
+  cbn [chain]. destruct (cmp_link o op1 a b) as [[|]| | |]; cbn [bind].
+  - destruct (cmp_link o op2 b c) as [[|]| | |]; cbn [bind]; split; intros H; try (destruct H as [_ H]); try discriminate H; auto.
+  - split; intros H; [discriminate H|destruct H as [H _]; discriminate H].
+  - split; intros H; [discriminate H|destruct H as [H _]; discriminate H].
+  - split; intros H; [discriminate H|destruct H as [H _]; discriminate H].
+  - split; intros H; [discriminate H|destruct H as [H _]; discriminate H].
+Qed.
